@@ -419,7 +419,7 @@ def run(tier: str, seed: int, props: list[str] | None = None, n_cases: int | Non
     rng = random.Random(seed * 7919 + 11)
     res = LoopResult()
     counters = {k: Counter() for k in ("entry", "stop", "kind", "req", "raise_at")}
-    n = n_cases if n_cases is not None else (2500 if tier == "quick" else 25000)
+    n = n_cases if n_cases is not None else (20000 if tier == "quick" else 250000)
     batch: list = []
     for i in range(n):
         cfg, prof = gen_cfg(rng)
